@@ -18,6 +18,7 @@ mod c16;
 mod dec;
 mod c17;
 mod c19;
+mod c20;
 mod fmt;
 mod rng;
 
@@ -161,6 +162,7 @@ fn main() {
         "c14" => c14::run(&mut ctx, replay_lines.as_deref()),
         "c15" => c15::run(&mut ctx, replay_lines.as_deref()),
         "c16" => c16::run(&mut ctx, replay_lines.as_deref()),
+        "c20" => c20::run(&mut ctx, replay_lines.as_deref()),
         "c19" => c19::run(&mut ctx, replay_lines.as_deref()),
         "c17" => c17::run(&mut ctx, replay_lines.as_deref()),
         _ => {
